@@ -522,9 +522,11 @@ class Model(Object):
         if len(bad_ids) != 0:
             raise ValueError(f"invalid identifiers in {repr(bad_ids)}")
 
+        # extend first: a metabolite listed twice is refused, and a refused
+        # metabolite must not point at a model it is not part of
+        self.metabolites += metabolite_list
         for x in metabolite_list:
             x._model = self
-        self.metabolites += metabolite_list
 
         # from cameo ...
         to_add = []
